@@ -118,18 +118,13 @@ def handle (st : DStore.DState) (l : Line) : Option (DStore.DState × Except Str
       let skew ← l.int "skew"
       let tag ← l.bytes "tag"
       let gtag ← l.bytes "gtag"
-      let lowmap ← DHttpParse.parseMap (l.get "lowmap")
       let cfg ← cfgOf l
       let hooks := hooksOf l
       let vc := Gen.Validate.UDP.validate { PrivateKey_empty := false, MaxNumWant := (← l.nat "maxnw"), DefaultNumWant := (← l.nat "defnw"),
                                              MaxScrapeInfoHashes := (← l.nat "maxscrape") }
       let opts : ParseOpts := { allowIPSpoofing := (← l.bool "spoof"), realIPHeaderSet := false, maxNumWant := vc.MaxNumWant.toNat,
                                  defaultNumWant := vc.DefaultNumWant.toNat, maxScrapeInfoHashes := vc.MaxScrapeInfoHashes.toNat }
-      let lower : Bytes → Bytes := fun k =>
-        if Query.isASCII k then Query.asciiLower k
-        else match lowmap.find? (·.1 == k) with
-          | some (_, some v) => v
-          | _ => [0xff, 0xfe, 0xfd]
+      let lower : Bytes → Bytes := Query.asciiLower   -- parseQuery lower-cases ASCII letters only (D27)
       let m1 := Udp.slice pkt 0 4 ++ src
       let m2 := Bytes.be32 ((now / 1000000000) % 2^32).toNat ++ src
       let mac : Udp.Mac := fun _ msg => if msg == m1 then tag ++ List.replicate 28 0 else if msg == m2 then gtag ++ List.replicate 28 0 else List.replicate 32 0
